@@ -606,6 +606,13 @@ theorem applyAct_inv_cloneField (s : State) (fh fw : List Nat) (k : Nat) (h : s.
   · exact Inv_incStrong_gen h rfl rfl (by simp) (fun t => by simp) (fun t => by simp)
   · exact h
 
+theorem applyAct_inv_downgradeField (s : State) (fh fw : List Nat) (k : Nat) (h : s.Inv) :
+    (applyAct s fh fw (.downgradeField k)).Inv := by
+  simp only [applyAct]
+  split
+  · exact Inv_incWeak_gen h rfl rfl (by simp) (fun t => by simp) (fun t => by simp)
+  · exact h
+
 theorem applyAct_inv_dropValue (s : State) (fh fw : List Nat) (i : Nat) (h : s.Inv) :
     (applyAct s fh fw (.dropValue i)).Inv := by
   simp only [applyAct]
